@@ -23,21 +23,22 @@ type kv struct {
 }
 
 type recSpec struct {
-	ID       string // unique in the scenario; also the Category
-	Prod     int
-	Seq      int
-	Pcode    int64
-	Oid      int32
-	Okind    int32
-	Onode    int32
-	Time     int64
-	Tags     []kv
-	TagHash  int64 // preset; 0 = computed by the writer when there are tags
-	Line     int64
-	Content  string
-	Fields   []kv
-	ref      []byte
-	setIndex int // index into the scenario's settings epochs (settings in force at hand-over)
+	ID        string // unique in the scenario; also the Category
+	Prod      int
+	Seq       int
+	Pcode     int64
+	Oid       int32
+	Okind     int32
+	Onode     int32
+	Time      int64
+	Tags      []kv
+	TagHash   int64 // preset; 0 = computed by the writer when there are tags
+	Line      int64
+	Content   string
+	Fields    []kv
+	NilFields bool // no fields and the pack's Fields pointer is nil (encodes like an empty field map)
+	ref       []byte
+	setIndex  int // index into the scenario's settings epochs (settings in force at hand-over)
 }
 
 func kvMap(l []kv) refcodec.V {
@@ -108,6 +109,9 @@ func (s *recSpec) build() *pack.LogSinkPack {
 	}
 	p.Line = s.Line
 	p.Content = s.Content
+	if s.NilFields && len(s.Fields) == 0 {
+		p.Fields = nil
+	}
 	for _, e := range s.Fields {
 		if e.IsText {
 			p.Fields.PutString(e.K, e.S)
@@ -120,7 +124,7 @@ func (s *recSpec) build() *pack.LogSinkPack {
 
 func (s *recSpec) brief() map[string]interface{} {
 	return map[string]interface{}{"id": s.ID, "time": s.Time, "bytes": s.Len(), "content_len": len(s.Content),
-		"tags": len(s.Tags), "fields": len(s.Fields)}
+		"tags": len(s.Tags), "fields": len(s.Fields), "nil_fields_pointer": s.NilFields}
 }
 
 const maxContent = 200 * 1024
@@ -191,6 +195,8 @@ func newSpec(r *vlib.Rand, prod, seq int, t int64, contentLen int, allowBig bool
 	}
 	if r.Chance(1, 5) {
 		s.Fields = []kv{{K: "f", IsText: true, S: s.ID}, {K: "v", N: int64(seq)}}
+	} else if r.Chance(1, 6) {
+		s.NilFields = true
 	}
 	return s
 }
@@ -226,4 +232,87 @@ func (s *recSpec) fitTo(r *vlib.Rand, target int) bool {
 		s.setContentLen(r, n)
 	}
 	return s.Len() == target
+}
+
+// ---- records that cannot be encoded -----------------------------------------------------------
+
+// badRec is a record whose encoding panics (it was not built by NewLogSinkPack, or a map holds
+// a nil value, or it is a nil pointer). The property owes nothing for it — and nothing of it may
+// reach a pack: no bytes, no count, no effect on the records around it.
+type badRec struct {
+	Kind string
+	ID   string // its Category ("" for the zero value and the nil pack)
+	P    *pack.LogSinkPack
+}
+
+var badKinds = []string{"zero-value", "nil-pack", "nil-tags", "nil-tags-preset-hash", "nil-tag-value", "nil-tag-value-preset-hash", "nil-field-value"}
+
+// usableBadKinds: the kinds whose encoding really panics in the revision under test (probed once
+// with golib's encoder; this classifies the INPUT — a kind that a later revision encodes is simply
+// an ordinary record there and is not used). Verdicts never come from this probe.
+var usableBadKinds []string
+
+func probeBadKinds(c *vlib.Ctx) {
+	r := vlib.NewRand(1)
+	for _, k := range badKinds {
+		b := buildBad(r, k, 0, baseTime, 100)
+		if vlib.Catch(func() { pack.ToBytesPack(b.P) }) != nil {
+			usableBadKinds = append(usableBadKinds, k)
+		} else {
+			c.SetAdd("unencodable_kinds_that_encode_in_this_revision", k)
+		}
+	}
+}
+
+// newBad draws one (nil when no kind is usable). n numbers the bad records of the scenario;
+// t / wait place its timestamp on, or beyond, the time trigger of the batch it falls into (it
+// must not close it).
+func newBad(r *vlib.Rand, n int, t, wait int64, allowNil bool) *badRec {
+	if len(usableBadKinds) == 0 {
+		return nil
+	}
+	k := usableBadKinds[r.Intn(len(usableBadKinds))]
+	if k == "nil-pack" && !allowNil {
+		k = usableBadKinds[0]
+		if k == "nil-pack" {
+			return nil
+		}
+	}
+	return buildBad(r, k, n, t, wait)
+}
+
+func buildBad(r *vlib.Rand, kind string, n int, t, wait int64) *badRec {
+	b := &badRec{Kind: kind}
+	switch b.Kind {
+	case "zero-value":
+		b.P = &pack.LogSinkPack{}
+		return b
+	case "nil-pack":
+		return b
+	}
+	b.ID = fmt.Sprintf("bad.%d", n)
+	p := pack.NewLogSinkPack()
+	p.Category = b.ID
+	p.Time = t + []int64{0, 1, wait, 2 * wait}[r.Intn(4)]
+	p.Pcode, p.Oid = int64(r.Intn(1<<20)), int32(r.U32())
+	p.Line = int64(r.Intn(1000))
+	p.Content = "UNENCODABLE|" + b.ID + "|" + filler(r, r.Intn(300))
+	p.Tags.PutString("id", b.ID)
+	switch b.Kind {
+	case "nil-tags":
+		p.Tags = nil
+	case "nil-tags-preset-hash": // the encoder gets as far as the tag map
+		p.Tags = nil
+		p.TagHash = 1 + int64(r.Intn(1<<30))
+	case "nil-tag-value": // fails while the tag hash is computed
+		p.Tags.Put("nothing", nil)
+	case "nil-tag-value-preset-hash": // fails in the middle of the tag map
+		p.Tags.Put("nothing", nil)
+		p.TagHash = 1 + int64(r.Intn(1<<30))
+	case "nil-field-value": // fails in the last bytes of the record
+		p.Fields.PutString("f", b.ID)
+		p.Fields.Put("nothing", nil)
+	}
+	b.P = p
+	return b
 }
